@@ -98,6 +98,9 @@ pub fn cmd_worker(opts: &BTreeMap<String, String>) -> i32 {
     let runs: u64 = opts.get("runs").and_then(|s| s.parse().ok()).unwrap_or(1);
     let deadline: u64 = opts.get("deadline").and_then(|s| s.parse().ok()).unwrap_or(3600);
     let want_log = opts.contains_key("log");
+    if opts.get("tier").map(|t| t == "thorough").unwrap_or(false) {
+        crate::gen::THOROUGH.store(true, std::sync::atomic::Ordering::Relaxed);
+    }
     let (known_open, _) = load_known(&format!("{}/KNOWN_FINDINGS.txt", verif_root()));
     let t0 = Instant::now();
     let out = std::io::stdout();
@@ -176,7 +179,7 @@ struct Agg {
     incomplete: bool,
 }
 
-fn spawn_workers(prop: &str, seed: u64, runs: u64, jobs: u64, deadline: u64, exe: &std::path::Path, log: bool) -> Agg {
+fn spawn_workers(prop: &str, seed: u64, runs: u64, jobs: u64, deadline: u64, exe: &std::path::Path, log: bool, tier: &str) -> Agg {
     let mut handles = vec![];
     for j in 0..jobs {
         let mut cmd = Command::new(exe);
@@ -188,6 +191,7 @@ fn spawn_workers(prop: &str, seed: u64, runs: u64, jobs: u64, deadline: u64, exe
             .args(["--stride", &jobs.to_string()])
             .args(["--runs", &runs.to_string()])
             .args(["--deadline", &deadline.to_string()])
+            .args(["--tier", tier])
             .stdout(Stdio::piped())
             .stderr(Stdio::null());
         if log {
@@ -354,7 +358,10 @@ pub fn cmd_check(opts: &BTreeMap<String, String>) -> i32 {
     let (_known_open, known_entries) = load_known(&format!("{root}/KNOWN_FINDINGS.txt"));
     println!("pocket-sim check property={prop} tier={tier} VERIF_SEED={seed} runs={runs} workers={jobs}");
     let t0 = Instant::now();
-    let agg = spawn_workers(&prop, seed, runs, jobs, deadline, &exe, false);
+    if tier == "thorough" {
+        crate::gen::THOROUGH.store(true, std::sync::atomic::Ordering::Relaxed);
+    }
+    let agg = spawn_workers(&prop, seed, runs, jobs, deadline, &exe, false, tier);
     let wall = t0.elapsed().as_secs_f64();
 
     let mut exit = 0;
@@ -742,8 +749,8 @@ pub fn cmd_selftest(opts: &BTreeMap<String, String>) -> i32 {
     let exe = std::env::current_exe().expect("current_exe");
     let mut bad = 0;
     for prop in &props {
-        let a = spawn_workers(prop, seed, runs, 16, 600, &exe, false);
-        let b = spawn_workers(prop, seed, runs, 3, 600, &exe, false);
+        let a = spawn_workers(prop, seed, runs, 16, 600, &exe, false, "quick");
+        let b = spawn_workers(prop, seed, runs, 3, 600, &exe, false, "quick");
         let mut diff = 0;
         for (i, h) in &a.loghashes {
             if b.loghashes.get(i) != Some(h) {
